@@ -51,6 +51,9 @@ NATIVE = {
     'n_elf_sections_tag_layout': dict(crate='multiboot2', file='elf_sections.rs', props=['C19', 'C01', 'C04'],
         bound='every declared size 20..=219 of an ELF-sections tag (0..=3 ELF64 entries of 64 bytes), marker contents; plus one image with three distinct field words (201 cases)',
         functions=['ElfSectionsTag layout assumed by Verus (elf_tag_wf): fields at offsets 8/12/16, tail at offset 20 with size-20 elements, size_of_val; ElfSectionsTag::sections entry addresses (Kani cannot compile this type)']),
+    'n_elf_section_names': dict(crate='multiboot2', file='elf_sections.rs', props=['C19'],
+        bound='ELF64, three entries, string-table index 0 and 2, ten name offsets 0..131056 in a real 128 KiB string table (20 cases)',
+        functions=['ElfSection::name / string_table: "names resolve through the string-table entry the tag designates" (reads memory outside the tag: outside the Verus memory model; Kani loses the object of an integer-to-pointer cast)']),
     'n_hdr_getters_many_tags': dict(crate='multiboot2-header', file='header.rs', props=['C11'],
         bound='10 getter kinds x {0,1,2,5,9..13,20,40,100,600,1100} filler tags (other kinds, cycling) x wanted kind present twice / absent (280 headers, up to ~16 KiB); every getter compared with the first tag of its type in the walk',
         functions=['Multiboot2Header::get_tag and the ten typed getters beyond the Kani region sizes (Iterator::find with a closure is outside this Verus)']),
